@@ -124,8 +124,173 @@ const NAMES: &[&str] = &[
     "tcp_inprogress_try_connect", "anon_pipe_io", "child_try_wait", "openpty_named", "spawn_mixed",
 ];
 
+
+/// Argument / peer-state boundary scenarios: every operation that takes or returns an address or a
+/// length is run with the caller-controlled size at {min, typical, max, max+1}.
+fn boundary_names() -> Vec<String> {
+    let mut v = vec![];
+    for how in ["accept", "accept_timeout", "try_accept"] {
+        for peer in ["path1", "path20", "path107", "path108", "unbound", "abstract", "abstract_full"] {
+            v.push(format!("unix_{how}_peer_{peer}"));
+        }
+    }
+    for op in ["bind", "connect", "try_connect"] {
+        for len in [1, 107, 108] {
+            v.push(format!("unix_{op}_pathlen_{len}"));
+        }
+    }
+    for e in ["0", "1", "4096", "huge"] {
+        v.push(format!("io_uring_setup_entries_{e}"));
+    }
+    for b in [1, 16, 64] {
+        v.push(format!("getpwuid_r_buf_{b}"));
+    }
+    for sz in ["empty", "large"] {
+        v.push(format!("fs_read_{sz}"));
+        v.push(format!("copy_file_{sz}"));
+    }
+    v.push("epoll_wait_zero_buf".to_string());
+    v
+}
+
+/// a client socket bound (with libc, exact sockaddr length) as the scenario says, connected to `listener`
+fn raw_unix_client(peer: &str, listener: &str) -> i32 {
+    unsafe {
+        let fd = libc::socket(libc::AF_UNIX, libc::SOCK_STREAM | libc::SOCK_CLOEXEC, 0);
+        assert!(fd >= 0);
+        let mut a: libc::sockaddr_un = std::mem::zeroed();
+        a.sun_family = libc::AF_UNIX as u16;
+        let fill = |a: &mut libc::sockaddr_un, from: usize, n: usize| {
+            for k in 0..n {
+                a.sun_path[from + k] = b'p' as libc::c_char;
+            }
+        };
+        let bind_len: Option<usize> = match peer {
+            "path1" => { fill(&mut a, 0, 1); Some(2 + 1 + 1) }
+            "path20" => { fill(&mut a, 0, 20); Some(2 + 20 + 1) }
+            "path107" => { fill(&mut a, 0, 107); Some(2 + 107 + 1) }
+            "path108" => { fill(&mut a, 0, 108); Some(2 + 108) } // no terminator fits: the kernel reports one more
+            "abstract" => { fill(&mut a, 1, 5); Some(2 + 1 + 5) }
+            "abstract_full" => { fill(&mut a, 1, 107); Some(2 + 108) }
+            "autobind" => Some(2),
+            _ => None,
+        };
+        if let Some(len) = bind_len {
+            let r = libc::bind(fd, std::ptr::addr_of!(a).cast(), len as u32);
+            assert_eq!(0, r, "bind of the peer failed: {}", std::io::Error::last_os_error());
+        }
+        let mut l: libc::sockaddr_un = std::mem::zeroed();
+        l.sun_family = libc::AF_UNIX as u16;
+        for (k, b) in listener.bytes().enumerate() {
+            l.sun_path[k] = b as libc::c_char;
+        }
+        let r = libc::connect(fd, std::ptr::addr_of!(l).cast(), (2 + listener.len() + 1) as u32);
+        assert_eq!(0, r, "connect of the peer failed: {}", std::io::Error::last_os_error());
+        fd
+    }
+}
+
+fn setup_boundary(name: &str, root: &Path) -> Option<Scen> {
+    // relative paths of an exact length: work inside the scenario's private directory
+    std::env::set_current_dir(root).unwrap();
+    if let Some(rest) = name.strip_prefix("unix_") {
+        for how in ["accept_timeout", "try_accept", "accept"] {
+            if let Some(peer) = rest.strip_prefix(&format!("{how}_peer_")) {
+                let mut l = UnixListener::bind(lit("l.sock")).unwrap();
+                let client = raw_unix_client(peer, "l.sock");
+                let how = how.to_string();
+                return Some(scen_bg(client, move || {
+                    let ret = match how.as_str() {
+                        "accept" => Ret::from(l.accept(), |s| (vec![s.as_raw_fd().value()], true)),
+                        "accept_timeout" => Ret::from(l.accept_with_timeout(core::time::Duration::from_millis(100)), |s| (vec![s.as_raw_fd().value()], true)),
+                        _ => Ret::from(l.try_accept(), |s| (s.iter().map(|s| s.as_raw_fd().value()).collect(), true)),
+                    };
+                    std::mem::forget(l);
+                    ret
+                }));
+            }
+        }
+        for op in ["try_connect", "connect", "bind"] {
+            if let Some(len) = rest.strip_prefix(&format!("{op}_pathlen_")) {
+                let len: usize = len.parse().unwrap();
+                let path = "q".repeat(len);
+                let p = lit(&path);
+                // a listener for the connecting variants, bound with libc at exactly that path
+                let bg = if op == "bind" {
+                    -1
+                } else {
+                    unsafe {
+                        let fd = libc::socket(libc::AF_UNIX, libc::SOCK_STREAM | libc::SOCK_CLOEXEC, 0);
+                        let mut a: libc::sockaddr_un = std::mem::zeroed();
+                        a.sun_family = libc::AF_UNIX as u16;
+                        for k in 0..len.min(108) {
+                            a.sun_path[k] = b'q' as libc::c_char;
+                        }
+                        let alen = if len >= 108 { 2 + 108 } else { 2 + len + 1 };
+                        assert_eq!(0, libc::bind(fd, std::ptr::addr_of!(a).cast(), alen as u32));
+                        assert_eq!(0, libc::listen(fd, 4));
+                        fd
+                    }
+                };
+                let op = op.to_string();
+                return Some(scen_bg(bg, move || match op.as_str() {
+                    "bind" => Ret::from(UnixListener::bind(p), |_| (vec![], false)),
+                    "connect" => Ret::from(UnixStream::connect(p), |s| (vec![s.as_raw_fd().value()], true)),
+                    _ => Ret::from(UnixStream::try_connect(p), |s| (s.iter().map(|s| s.as_raw_fd().value()).collect(), true)),
+                }));
+            }
+        }
+    }
+    if let Some(e) = name.strip_prefix("io_uring_setup_entries_") {
+        let entries: u32 = match e {
+            "huge" => 1 << 20,
+            x => x.parse().unwrap(),
+        };
+        return Some(scen(move || {
+            let r = rusl::io_uring::setup_io_uring(entries, rusl::platform::IoUringParamFlags::empty(), 0, 0);
+            Ret::from(r, |u| (vec![u.fd.value()], true))
+        }));
+    }
+    if let Some(b) = name.strip_prefix("getpwuid_r_buf_") {
+        let size: usize = b.parse().unwrap();
+        return Some(scen(move || {
+            let mut buf = vec![0u8; size];
+            let r = tiny_std::unix::passwd::getpw_r::getpwuid_r(0, &mut buf).map(|o| o.is_some());
+            Ret::unit(r)
+        }));
+    }
+    if name.starts_with("fs_read_") || name.starts_with("copy_file_") {
+        let size = if name.ends_with("empty") { 0 } else { 3 << 20 };
+        std::fs::write("data.bin", vec![7u8; size]).unwrap();
+        let src = lit("data.bin");
+        let dst = lit("data.copy");
+        return Some(if name.starts_with("fs_read_") {
+            scen(move || Ret::unit(tiny_std::fs::read(src)))
+        } else {
+            scen(move || Ret::from(tiny_std::fs::copy_file(src, dst), |f| (vec![f.as_raw_fd().value()], true)))
+        });
+    }
+    if name == "epoll_wait_zero_buf" {
+        return Some(scen(move || {
+            let d = match EpollDriver::create(true) {
+                Ok(d) => d,
+                Err(e) => return Ret::err(e),
+            };
+            let mut ev: [tiny_std::linux::epoll::EpollEvent; 0] = [];
+            match d.wait(&mut ev, EpollTimeout::NoWait) {
+                Ok(_) => Ret::ok(vec![], false, Box::new(d)),
+                Err(e) => Ret::err(e),
+            }
+        }));
+    }
+    None
+}
+
 #[allow(clippy::too_many_lines)]
 fn setup(name: &str, root: &Path) -> Scen {
+    if boundary_names().iter().any(|n| n == name) {
+        return setup_boundary(name, root).unwrap_or_else(|| panic!("boundary scenario {name}"));
+    }
     let f_small = root.join("small.txt");
     std::fs::write(&f_small, b"hello descriptor table\n").unwrap();
     let long_path = root.join("x".repeat(120));
@@ -675,6 +840,9 @@ fn main() {
     match args.get(1).map(String::as_str) {
         Some("list") => {
             for n in NAMES {
+                println!("{n}");
+            }
+            for n in boundary_names() {
                 println!("{n}");
             }
         }
